@@ -2,28 +2,16 @@ package main
 
 import (
 	"fmt"
-	"time"
+	"os"
 
 	"verif/harness/props"
 	"verif/harness/univ"
 )
 
 func main() {
-	for _, sp := range []*univ.Space{univ.NPMSpace(), univ.MavenSpace(), univ.PyPISpace()} {
-		n := 0
-		univ.Enumerate(sp.Slots, 2, func(p []univ.Pick) {
-			u, ok := sp.Build(p)
-			if !ok || len(p) < 2 || len(u.Vers[0].Reqs) == 0 {
-				return
-			}
-			n++
-			if n%300 != 1 {
-				return
-			}
-			t0 := time.Now()
-			st := props.C05SchedProbe(u, 2)
-			fmt.Printf("%s %s: schedules=%d points=%d maxpoints=%d complete=%v  %v\n", sp.Name, u.Encode()[:0], st.Schedules, st.Points, st.MaxPoints, st.Complete, time.Since(t0))
-		})
-		fmt.Println(sp.Name, "E3 candidate universes dev<=2:", n)
+	u, err := univ.Decode(os.Args[1])
+	if err != nil {
+		panic(err)
 	}
+	fmt.Println(props.PyPIResolveDump(u, [2]string{os.Args[2], os.Args[3]}))
 }
